@@ -202,7 +202,18 @@ func (e *Engine) rethrowIfEngine(r any) {
 // annotate turns raw host panics into engine errors carrying the interpreted location.
 func (e *Engine) annotate(fr *frame, r any) any {
 	switch x := r.(type) {
-	case nil, targetPanic, pathAbort:
+	case targetPanic:
+		if !x.origin {
+			x.origin = true
+			// A run-time panic raised inside a package whose initialisers are not executed
+			// (the standard library, third-party code) may be an artefact of that - a pool or
+			// table that was never set up - and is not evidence about the code under test.
+			if p := pkgOfFn(fr.fn); p != nil && !e.initSet[p] {
+				return &engineError{msg: fmt.Sprintf("run-time panic inside %s, whose package initialisers are not executed: %s%s", p.Pkg.Path(), e.panicString(x.v), e.where(fr))}
+			}
+		}
+		return x
+	case nil, pathAbort:
 		return r
 	case *engineError:
 		if !strings.Contains(x.msg, "\n  in ") {
@@ -329,7 +340,7 @@ func (e *Engine) visitInstr(fr *frame, instr ssa.Instruction) (ret bool, jumped 
 		fr.runDefers()
 
 	case *ssa.Panic:
-		panic(targetPanic{fr.get(instr.X)})
+		panic(targetPanic{v: fr.get(instr.X)})
 
 	case *ssa.Send:
 		fr.g.siteOK = e.siteOK(instr.Pos())
@@ -1050,7 +1061,7 @@ func (e *Engine) callBuiltin(caller *frame, pos token.Pos, fn *ssa.Builtin, args
 		return acc
 
 	case "panic":
-		panic(targetPanic{args[0]})
+		panic(targetPanic{v: args[0]})
 
 	case "recover":
 		return e.doRecover(caller)
@@ -1237,4 +1248,18 @@ func (e *Engine) siteOK(pos token.Pos) bool {
 	ok := filepath.Dir(file) == e.pkgDir && !strings.HasPrefix(base, "zz_verif_m_") && !strings.HasPrefix(base, "zz_verif_rt_")
 	e.siteCache[file] = ok
 	return ok
+}
+
+// pkgOfFn: the package a function (or the generic it was instantiated from, or
+// the function a closure was declared in) belongs to.
+func pkgOfFn(fn *ssa.Function) *ssa.Package {
+	for f := fn; f != nil; f = f.Parent() {
+		if f.Pkg != nil {
+			return f.Pkg
+		}
+		if o := f.Origin(); o != nil && o.Pkg != nil {
+			return o.Pkg
+		}
+	}
+	return nil
 }
